@@ -12,7 +12,7 @@ import random
 import struct
 import sys
 
-CARRIED_SWITCHES = (0, 1, 200)
+CARRIED_SWITCHES = (0, 1, 200, 3, 4)   # 3 and 4 carry custom names in the scx fixture
 
 sys.path.insert(0, os.path.dirname(os.path.abspath(__file__)))
 import refchk  # noqa: E402
